@@ -91,7 +91,7 @@ def run(prog, rep, tier):
         rep.check("DEFAULTS." + name, dv == defaults and f.params == list(defaults), fwhere(f), "signature %s%s" % (name, tuple(defaults.items())),
                   "signature/defaults are %s" % dv)
     S, f, clo, res, facts = factory_closure(prog, NO + "zero")
-    rep.check("CONST.zero", res == ("ext", "numpy.zeros", (N,), ()) and not f.params, fwhere(f), "zero() returns zeros(n)", "zero() returns %s" % fmt(res))
+    rep.check("CONST.zero", zeros_of(res, shapes=[N]) and not f.params, fwhere(f), "zero() returns zeros(n)", "zero() returns %s" % fmt(res))
     fn = need(prog, "sempler.functions.null")
     Sn = Sym(prog)
     sn, _ = run_function(Sn, fn)
